@@ -1,6 +1,227 @@
+/-
+Line-protocol driver for C02 (`sqfsmodel c02`).  One operation per input line, one result line each.
+
+  run <B> <mb> <bc 0|1> <hbits> <toy|none> <pre-hex> <nfiles> (<flags-dec> <data-hex>)×nfiles
+        the block processor model (`Sqfs/Model/BlockProc.lean`) with `max_backlog = mb`, the serial pool behaviour,
+        checksum = xxh32 truncated to `hbits` bits (harness/weak_xxh.c), toy run-length codec (harness/h_c08.c)
+        → ok W=<n> <chk-hex8>:<flags-hex>:<data-hex>… F=<n> <start>:<word>… I=<n> <size>:<start>:<fragidx>:<fragoff>:<sparse>:<ext>:<w,…|->… Z=<file length>:<fnv1a-64 of the output file>
+        | err <kind>
+  runs <B> <mb> …same…     the same with `sqfs_block_processor_sync` called before every `end_file` (file still open)
+  spec <B> <mb> …same…     the queue-free reference `packRef` (`Sqfs/Spec/BlockProcSpec.lean`; `mb` is ignored) → same format
+  state | states <B> <mb> …same…   (`states`: with the `sync` calls of `runs`)
+        → the final bookkeeping of the processor (`finish_writes_everything`): backlog, io_queue length, sequence numbers,
+          items submitted to the pool, the largest number of items inside the pool at any time (serial pool: a
+          function of the workload and `max_backlog`), in-flight copies left
+  xxh <hbits> <data-hex>        → <hex8>           (the checksum function the driver passes as `h`)
+  sde <value-hex|none>           → <mtime>          (`get_source_date_epoch`, `Sqfs/Model/BuildEnv.lean`)
+  mtime <sde-hex|none> <defaults-mtime|-> <keep 0|1> <input mtime> → <superblock mtime> <inode mtime>
+-/
 import Driver.Util
+import Sqfs.Model.BlockProc
+import Sqfs.Spec.BlockProcSpec
+import Sqfs.Model.ToyCodec
+import Sqfs.Model.BuildEnv
 namespace Driver.C02
-/-- stub: the model driver for C02 is not built yet -/
+open Sqfs Sqfs.BlockProc
+
+/-! hex without deep recursion -/
+def hexNib (c : UInt8) : Option UInt8 :=
+  if 48 ≤ c ∧ c ≤ 57 then some (c - 48)
+  else if 97 ≤ c ∧ c ≤ 102 then some (c - 87)
+  else if 65 ≤ c ∧ c ≤ 70 then some (c - 55)
+  else none
+
+def fromHexFast (s : String) : Option (List UInt8) :=
+  if s = "-" then some []
+  else
+    let b := s.toUTF8
+    if b.size % 2 ≠ 0 then none
+    else Id.run do
+      let mut out : Array UInt8 := Array.mkEmpty (b.size / 2)
+      let mut ok := true
+      for i in [0:b.size / 2] do
+        match hexNib (b.get! (2 * i)), hexNib (b.get! (2 * i + 1)) with
+        | some x, some y => out := out.push (x * 16 + y)
+        | _, _ => ok := false
+      return if ok then some out.toList else none
+
+def hexChar (n : UInt8) : UInt8 := if n < 10 then 48 + n else 87 + n
+
+def toHexFast (bs : List UInt8) : String :=
+  if bs.isEmpty then "-"
+  else
+    let arr := bs.foldl (fun (a : ByteArray) b => (a.push (hexChar (b / 16))).push (hexChar (b % 16))) (ByteArray.emptyWithCapacity (2 * bs.length))
+    String.fromUTF8! arr
+
+def hexNat (n : Nat) (digits : Nat) : String :=
+  let rec go (n : Nat) : Nat → List Char → List Char
+    | 0, acc => acc
+    | d + 1, acc => go (n / 16) d (hexDigit (n % 16) :: acc)
+  String.ofList (go n digits [])
+
+/-! xxh32 with seed 0 (`lib/util/src/xxhash.c`), truncated as harness/weak_xxh.c does -/
+def rotl (x : UInt32) (r : UInt32) : UInt32 := (x <<< r) ||| (x >>> (32 - r))
+def p1 : UInt32 := 2654435761
+def p2 : UInt32 := 2246822519
+def p3 : UInt32 := 3266489917
+def p4 : UInt32 := 668265263
+def p5 : UInt32 := 374761393
+def rd32 (a : Array UInt8) (i : Nat) : UInt32 :=
+  (a[i]!).toUInt32 ||| ((a[i+1]!).toUInt32 <<< 8) ||| ((a[i+2]!).toUInt32 <<< 16) ||| ((a[i+3]!).toUInt32 <<< 24)
+def round (seed input : UInt32) : UInt32 := rotl (seed + input * p2) 13 * p1
+
+def xxh32 (d : List UInt8) : UInt32 := Id.run do
+  let a := d.toArray
+  let len := a.size
+  let mut p := 0
+  let mut h : UInt32 := p5
+  if len ≥ 16 then
+    let mut v1 : UInt32 := p1 + p2
+    let mut v2 : UInt32 := p2
+    let mut v3 : UInt32 := 0
+    let mut v4 : UInt32 := p1
+    for _ in [0:len / 16] do
+      v1 := round v1 (rd32 a p)
+      v2 := round v2 (rd32 a (p + 4))
+      v3 := round v3 (rd32 a (p + 8))
+      v4 := round v4 (rd32 a (p + 12))
+      p := p + 16
+    h := rotl v1 1 + rotl v2 7 + rotl v3 12 + rotl v4 18
+  h := h + UInt32.ofNat len
+  for _ in [0:(len - p) / 4] do
+    h := rotl (h + rd32 a p * p3) 17 * p4
+    p := p + 4
+  for _ in [0:len - p] do
+    h := rotl (h + (a[p]!).toUInt32 * p5) 11 * p1
+    p := p + 1
+  h := h ^^^ (h >>> 15)
+  h := h * p2
+  h := h ^^^ (h >>> 13)
+  h := h * p3
+  h := h ^^^ (h >>> 16)
+  return h
+
+def weakXxh (bits : Nat) (d : List UInt8) : UInt32 :=
+  let h := xxh32 d
+  if bits ≥ 32 then h else h &&& ((1 <<< UInt32.ofNat bits) - 1)
+
+def fnv64 (d : List UInt8) : UInt64 :=
+  d.foldl (fun h b => (h ^^^ b.toUInt64) * 1099511628211) 14695981039346656037
+
+def showErr : Err → String
+  | .sequence => "sequence"
+  | .unsupported => "unsupported"
+  | .internal => "internal"
+  | .pool rc => s!"pool{rc}"
+  | .alloc => "alloc"
+  | .corrupted => "corrupted"
+  | .outOfBounds => "oob"
+  | .overflow => "overflow"
+  | .compressor => "compressor"
+  | .writer .outOfBounds => "writer-oob"
+  | .writer .internal => "writer-internal"
+  | .nullDeref => "null-deref"
+  | .fuel => "fuel"
+
+def showWords (ws : List Nat) : String :=
+  if ws.isEmpty then "-" else ",".intercalate (ws.map toString)
+
+def showOutput (o : Output) : String :=
+  s!"ok W={o.calls.length}" ++ String.join (o.calls.map (fun c => s!" {hexNat c.chk.toNat 8}:{hexNat c.flags 4}:{toHexFast c.data}"))
+    ++ s!" F={o.frags.length}" ++ String.join (o.frags.map (fun e => s!" {e.1}:{e.2}"))
+    ++ s!" I={o.files.length}" ++ String.join (o.files.map (fun r =>
+        s!" {r.size}:{r.start}:{r.fragIdx}:{r.fragOff}:{r.sparse}:{if r.extended then 1 else 0}:{showWords r.words}"))
+    ++ s!" Z={o.file.length}:{hexNat (fnv64 o.file).toNat 16}"
+
+def parseFiles : Nat → List String → Option (List InFile)
+  | 0, [] => some []
+  | 0, _ => none
+  | n + 1, fl :: d :: rest => do
+    let fl ← fl.toNat?
+    let d ← fromHexFast d
+    let r ← parseFiles n rest
+    pure (⟨fl, d⟩ :: r)
+  | _, _ => none
+
+structure Job where
+  P : Params
+  mb : Nat
+  files : List InFile
+
+def parseJob : List String → Option Job
+  | b :: mb :: bc :: hb :: codec :: pre :: nf :: rest => do
+    let b ← b.toNat?
+    let mb ← mb.toNat?
+    let bc ← bc.toNat?
+    let hb ← hb.toNat?
+    let pre ← fromHexFast pre
+    let nf ← nf.toNat?
+    let files ← parseFiles nf rest
+    let cd ← if codec = "toy" then some (ToyCodec.codec b) else if codec = "none" then some ToyCodec.ident else none
+    pure ⟨{ B := b, codec := cd, h := weakXxh hb, byteCompare := bc != 0, pre := pre }, mb, files⟩
+  | _ => none
+
+def stateOp (sy : Bool) (rest : List String) : String :=
+  match parseJob rest with
+  | none => "bad-op"
+  | some j =>
+    match runProc j.P j.mb j.files sy with
+    | .ok s =>
+      -- the largest number of items inside the pool at any time, from the values the pool returned
+      let mq := s.pool.ser.rets.foldl (fun (acc : Nat × Nat) r =>
+        match r with
+        | .submit 0 => (acc.1 + 1, max acc.2 (acc.1 + 1))
+        | .deq (some _) => (acc.1 - 1, acc.2)
+        | _ => acc) (0, 0)
+      s!"ok backlog={s.backlog} ioq={s.ioQueue.length} seq={s.ioSeqNum} deq={s.ioDeqSeqNum} pending={s.pool.ser.queue.length} sub={s.pool.table.length} maxq={mq.2} inflight={s.fblkInFlight.length}"
+    | .error e => "err " ++ showErr e
+
+def step (line : String) : String :=
+  match words line with
+  | "run" :: rest =>
+    match parseJob rest with
+    | none => "bad-op"
+    | some j =>
+      match run j.P j.mb j.files with
+      | .ok o => showOutput o
+      | .error e => "err " ++ showErr e
+  | "runs" :: rest =>
+    match parseJob rest with
+    | none => "bad-op"
+    | some j =>
+      match run j.P j.mb j.files true with
+      | .ok o => showOutput o
+      | .error e => "err " ++ showErr e
+  | "spec" :: rest =>
+    match parseJob rest with
+    | none => "bad-op"
+    | some j =>
+      match packRef j.P j.files with
+      | .ok o => showOutput o
+      | .error e => "err " ++ showErr e
+  | "state" :: rest => stateOp false rest
+  | "states" :: rest => stateOp true rest
+  | ["xxh", bits, d] =>
+    match bits.toNat?, fromHexFast d with
+    | some b, some d => hexNat (weakXxh b d).toNat 8
+    | _, _ => "bad-op"
+  | ["sde", v] =>
+    if v = "none" then toString (BuildEnv.sourceDateEpoch none)
+    else match fromHexFast v with
+      | some b => toString (BuildEnv.sourceDateEpoch (some b))
+      | none => "bad-op"
+  | ["mtime", sde, dflt, keep, inp] =>
+    let env : Option (Option (List UInt8)) := if sde = "none" then some none else (fromHexFast sde).map some
+    let d : Option (Option Nat) := if dflt = "-" then some none else dflt.toNat?.map some
+    match env, d, keep.toNat?, inp.toInt? with
+    | some env, some d, some k, some i =>
+      let o : BuildEnv.Options := { defaultsMtime := d, keepTime := k != 0 }
+      let e : BuildEnv.ProcessEnv := ⟨env, 0, [], [], 0, []⟩
+      s!"{BuildEnv.superMtime e o} {BuildEnv.inodeMtime e o i}"
+    | _, _, _, _ => "bad-op"
+  | _ => "bad-op"
+
 def run (_args : List String) : IO Unit := do
-  IO.eprintln "sqfsmodel: model C02 not built yet"
+  lineLoop (← IO.getStdin) (← IO.getStdout) step
+
 end Driver.C02
